@@ -141,7 +141,22 @@ def run_facade(seq):
     recs = [B.rec(i + 1, tid=e.tid, debugid=e.debugid, data=e.data) for i, e in enumerate(evs)]
     f = PyKdebugParser()
     got = list(f.callstacks(io.BytesIO(B.v2([(1, 10, 'A')], 0, recs)), dict(E.codes())))
-    return [(x.timestamp - 1, x.tid, [tuple(fr) for fr in x.frames]) for x in got]
+    out = [(x.timestamp - 1, x.tid, [tuple(fr) for fr in x.frames]) for x in got]
+    # the same dump written under ANOTHER numbering of the sampler / loader codes, listed with the table of that numbering: the same
+    # call stacks (the supplied table is the one in force)
+    tc = dict(E.codes())
+    moved = {c: c + 0x40000 for c, nm in tc.items() if nm.startswith(('PERF_', 'DYLD_', 'DBG_DYLD_'))}
+    tc2 = {moved.get(c, c): nm for c, nm in tc.items()}
+    recs2 = [B.rec(i + 1, tid=e.tid, debugid=moved.get(e.eventid, e.eventid) | e.func_qualifier, data=e.data) for i, e in enumerate(evs)]
+    got2 = list(PyKdebugParser().callstacks(io.BytesIO(B.v2([(1, 10, 'A')], 0, recs2)), tc2))
+    out2 = [(x.timestamp - 1, x.tid, [tuple(fr) for fr in x.frames]) for x in got2]
+    if out2 != out:
+        raise TableNotHonoured(f'{len(out2)} call stacks under the renumbered table, {len(out)} under the bundled numbering')
+    return out
+
+
+class TableNotHonoured(Exception):
+    pass
 
 
 def ref(seq):
